@@ -1,7 +1,9 @@
-"""C01 message numbering: theorems in coq/Props/PropC01.v over Sys/Topic.v (group topic) and
-Sys/TopicLoad.v (load paths of all topic kinds, peer-to-peer and 'sys' topics); correspondence
-and monitor through the topic-history driver (group) and the load-path driver
-zz_verif_c01x_test.go (p2p, sys): real hub/topic/session code above memverif."""
+"""C01 message numbering: theorems in coq/Props/PropC01.v over Sys/Topic.v (group topic),
+Sys/TopicLoad.v (load paths of all topic kinds, peer-to-peer and 'sys' topics) and
+Sys/TopicBurstC01.v (several requests in flight: bursts, write loops, idle-unload race);
+correspondence and monitor through the topic-history driver (group), the load-path driver
+zz_verif_c01x_test.go (p2p, sys) and the burst / unload-race driver zz_verif_c01b_test.go
+(tools/props/c01burst.py): real hub/topic/session code above memverif."""
 import json
 import os
 import re
@@ -10,6 +12,7 @@ import time
 import vlib
 from props import statelib
 from props import topiclib as T
+from props import c01burst
 from props.statelib import kvs
 
 
@@ -498,6 +501,11 @@ def run(ctx):
         if rp is not None:
             ctx.coverage.setdefault("trusted_base", []).append("harness/overlay/server/zz_verif_c01x_test.go: p2p/sys load-path driver")
             ctx.finish()
+    if ok_r and ok_m and ctx.proof_ok() and (rp is None or rp.get("part") == "flight"):
+        c01burst.run_flight(ctx, monitor)
+        if rp is not None:
+            ctx.coverage.setdefault("trusted_base", []).append("harness/overlay/server/zz_verif_c01b_test.go: burst / unload-race driver")
+            ctx.finish()
     ctx.violations = [v for v in ctx.violations if v["key"] != "proof-broken"]   # re-raised by run_stateful
     ctx.coq_props = lambda extra_files=(): proof
     ctx.build_runner = lambda: (ok_r, out_r)
@@ -508,4 +516,6 @@ def run(ctx):
         rule="seeded random histories over one group topic: 2-5 users x 1-2 sessions (owner / plain / write-less / read-less publishers), pub interleaved with get/del/note/leave/sub, unload and restart at random positions, and for about half of the histories a failing (F k) or crashing (C k) adapter call k=1..4 on random requests; non-trivial = at least one accepted mutating request; distinct by (ops, replies); PLUS the p2p/sys load-path histories reported under coverage.load_paths",
         trusted=["projection compared for C01: 202 acks, data frames, desc, stored seqid and message numbers, cached lastID, number of adapter calls per request (p2p/sys histories: also stored/cached delID and the loaded flag)",
                  "harness/overlay/server/zz_verif_c01x_test.go: p2p/sys load-path driver (stored state seeded through the store mappers; 'sys' row reset between scenarios)",
-                 "the reduction 'all publishes of a topic are handled by one goroutine, so any interleaving of sessions is some order of requests' is exercised, not proved"])
+                 "the reduction 'all publishes of a topic are handled by one goroutine, so any interleaving of sessions is some order of requests' is exercised (bursts dispatched without waiting: Go channel FIFO), not proved",
+                 "harness/overlay/server/zz_verif_c01b_test.go: burst / unload-race driver - write loops that serialise with Session.serialize at dequeue time and can be held; the kill timer's unregister request is handed to the real hub when the scenario says so; a {pub} queued at an unregistered instance (by the real Session.publish) is handled by the driver calling that instance's handleClientMsg after its goroutine has ended (select order clientMsg-before-exit emulated); hubunregmid holds the instance's goroutine at the entry of TopicUpdateOnMessage with the memverif call hook; store.Messages is wrapped to record every SeqId passed to Save and the outcome",
+                 "frames of the model are values: 'no mutable state shared between a queued frame and later work of the topic goroutine' is checked by the driver (serialisation at dequeue time with held write loops), not proved"])
